@@ -220,6 +220,8 @@ def prepare_xfer(obs, x):
             x.dest = SeekableSink(w, x.label)
         elif dst == 'nonseekable':
             x.dest = DeclaredNonSeekableSink(w, x.label) if t.get('flavor') == 'declared' else NonSeekableSink(w, x.label)
+        if dst in ('seekable', 'nonseekable') and t.get('write_ret'):
+            x.dest.write_ret = t['write_ret']
         elif dst == 'fifo':
             path = os.path.join(tmpdir, f'fifo-{x.idx}')
             real = path + '-target' if t.get('symlink') else path
